@@ -98,6 +98,7 @@ StepClauses(t, pre, ev) ==
      \cup Cl("Step_Outcome_NoBorrow", ~(ev.kind = "create_order" /\ ~ev.arg.ab) \/ r.ok = ev.ok)
      \cup Cl("Step_Balances", ob.bal = so.bal /\ ob.bor = so.bor)
      \cup Cl("Step_Holds", ob.hold = so.hold)
+     \cup Cl("Step_BidAsk", \A p \in 1..Len(ob.bidask) : ob.bidask[p] = <<0 - 1, 0 - 1>> \/ ob.bidask[p] = so.bidask[p])
      \cup Cl("Step_Orders", sameOrders /\ \A i \in 1..Min2(Len(ob.orders), Len(post.orders)) :
                  LET x == ob.orders[i]  y == so.orders[i] IN
                  x.state = y.state /\ x.filled = y.filled /\ x.qfilled = y.qfilled /\ x.fee = y.fee
